@@ -14,14 +14,17 @@ package locking
 //@   ensures forall_int(i, result0.Theirs[i], 0 <= i && i < len(result0.Theirs) ==> !lock_mine(result0.Theirs[i]))
 
 //@ func (*Client).SearchLocksVerifiable
-//@   props C16
+//@   props C16 C18
 //@   requires @inv c.cache != nil && c.client != nil
-//@   ensures result2 == nil && !cached ==> cache_adds(old(c.cache)) == len(result0) + len(result1)
-//@   loop 1 invariant cache_adds(c.cache) == len(ourLocks) + len(theirLocks)
-//@   loop 2 invariant cache_adds(c.cache) == len(ourLocks) + len(theirLocks)
-//@   loop 3 invariant cache_adds(c.cache) == len(ourLocks) + len(theirLocks)
-//@   at call (locking.LockCacher).Add:1 assert lock_mine(arg1__)
-//@   at call (locking.LockCacher).Add:2 assert lock_mine(arg1__)
+//@   requires @inv limit >= 0
+//@   at call (locking.lockClient).SearchVerifiable:1 assert @C18 arg2__.Limit >= 0
+//@   loop 1 invariant @C18 body.Limit >= 0
+//@   ensures @C16 result2 == nil && !cached ==> cache_adds(old(c.cache)) == len(result0) + len(result1)
+//@   loop 1 invariant @C16 cache_adds(c.cache) == len(ourLocks) + len(theirLocks)
+//@   loop 2 invariant @C16 cache_adds(c.cache) == len(ourLocks) + len(theirLocks)
+//@   loop 3 invariant @C16 cache_adds(c.cache) == len(ourLocks) + len(theirLocks)
+//@   at call (locking.LockCacher).Add:1 assert @C16 lock_mine(arg1__)
+//@   at call (locking.LockCacher).Add:2 assert @C16 lock_mine(arg1__)
 
 //@ iface (LockCacher).Add
 //@   params recv l
